@@ -179,7 +179,7 @@ def run(pid, tier, seed, replay=None):
 
     # sample + binding demonstration
     sample_trace(ck, scs, os.path.join(w, "runs"))
-    binding_demo(ck, os.path.join(w, "runs"), w)
+    binding_demo(ck, os.path.join(w, "runs"), w, {sc.get("id") for sc, _ in bad})
     if not ck.violations:
         # the traces are big (hundreds of MB in the thorough tier): keep the first few scenarios only
         rd = os.path.join(w, "runs")
@@ -221,9 +221,12 @@ def sample_trace(ck, scs, outdir):
             return
 
 
-def binding_demo(ck, outdir, w):
-    """Corrupt one virtual timestamp in the fresh-process trace of a scenario -> TLC must reject at that record."""
-    for i in range(0, 40):
+def binding_demo(ck, outdir, w, skip=()):
+    """Corrupt one virtual timestamp in the fresh-process trace of a (non-diverging) scenario -> TLC must reject
+    at that record."""
+    for i in range(0, 60):
+        if i in skip:
+            continue
         files = scenario_files(outdir, i)
         if not os.path.exists(files[2]):
             break
